@@ -78,12 +78,17 @@ def cell_dir(cfg, prof, instr="native"):
 MIRI_FLAGS = {
     "miri-sb": "-Zmiri-disable-isolation -Zmiri-no-extra-rounding-error",
     "miri-tb": "-Zmiri-disable-isolation -Zmiri-no-extra-rounding-error -Zmiri-tree-borrows",
+    "miri-sb-i686": "-Zmiri-disable-isolation -Zmiri-no-extra-rounding-error",
 }
 
 
-def miri_cmd(cfg, prof, engine):
+def miri_cmd(cfg, prof, engine, instr="miri-sb"):
+    i686 = instr.endswith("-i686")
     cmd = ["cargo", "+nightly", "miri", "run", "--offline", "--quiet", "--manifest-path", os.path.join(HARNESS, "Cargo.toml"),
-           "--target-dir", cell_dir(cfg, prof, "miri")]
+           "--target-dir", cell_dir(cfg, prof, "miri-i686" if i686 else "miri")]
+    if i686:
+        # a 32-bit target: the crate's 32-bit-limb big-integer code (LIMB_BITS == 32) only exists there
+        cmd += ["--target", "i686-unknown-linux-gnu"]
     cmd += ["--release"] if prof == "rel" else ["--profile", "chk"]
     if FEATURES[cfg]:
         cmd += ["--features", FEATURES[cfg]]
@@ -102,7 +107,7 @@ def build(cfg, prof, bins, instr="native"):
         env["RUSTFLAGS"] = HOOK_FLAG
         env["MIRIFLAGS"] = MIRI_FLAGS[instr]
         for b in bins:
-            p = subprocess.run(miri_cmd(cfg, prof, b) + ["--warmup"], env=env, stdout=subprocess.PIPE, stderr=subprocess.STDOUT, text=True)
+            p = subprocess.run(miri_cmd(cfg, prof, b, instr) + ["--warmup"], env=env, stdout=subprocess.PIPE, stderr=subprocess.STDOUT, text=True)
             if p.returncode != 0:
                 raise BuildError("miri build failed for %s/%s %s:\n%s" % (cfg, prof, b, tail(p.stdout, 40)))
         _built[key] = "MIRI"
@@ -178,7 +183,7 @@ def run_shard(job, idx, prop, sd, workdir, extra_args=None):
     res = ShardResult(job, idx)
     logf = os.path.join(workdir, "%s-%d.log" % (job.name, idx))
     if job.instr.startswith("miri"):
-        launcher = miri_cmd(job.cfg, job.prof, job.engine)
+        launcher = miri_cmd(job.cfg, job.prof, job.engine, job.instr)
     else:
         wrapper = list(job.wrapper)
         if job.instr == "valgrind":
